@@ -41,16 +41,16 @@ type SignerSpec struct {
 
 // TxSpec is a transaction as pure data.
 type TxSpec struct {
-	Msgs     []sdk.Msg    `json:"-"`
+	Msgs []sdk.Msg `json:"-"`
 	// SignedMsgs, when set, are the messages the signatures are made over; the transaction
 	// that is encoded carries Msgs with those signatures (content replaced after signing).
-	SignedMsgs []sdk.Msg `json:"-"`
-	Signers  []SignerSpec `json:"signers"`
-	Fee      sdk.Coins    `json:"fee,omitempty"`
-	FeePayer string       `json:"fee_payer,omitempty"`
-	Gas      uint64       `json:"gas,omitempty"`
-	Memo     string       `json:"memo,omitempty"`
-	Timeout  uint64       `json:"timeout,omitempty"`
+	SignedMsgs []sdk.Msg    `json:"-"`
+	Signers    []SignerSpec `json:"signers"`
+	Fee        sdk.Coins    `json:"fee,omitempty"`
+	FeePayer   string       `json:"fee_payer,omitempty"`
+	Gas        uint64       `json:"gas,omitempty"`
+	Memo       string       `json:"memo,omitempty"`
+	Timeout    uint64       `json:"timeout,omitempty"`
 }
 
 // DefaultGas is ample for every custom message (a 5000-byte record costs ~200k).
